@@ -46,6 +46,7 @@ KEY_PRECEDENCE = "precedence-timeout-over-stuck:panic-unknown,stuck-unknown"
 KEY_SPAWN = "stuck-confirm-exception-masks-fail:panic-sat_valid,stuck-spawnfail"
 
 BATCH = 6
+JOB_TIMEOUT_S = 600.0  # one batch of 6 scenarios normally takes 5..60 s
 
 
 def c05_plain(key: str) -> str:
@@ -158,6 +159,9 @@ class C05Feeder(threading.Thread):
         self.inflight: dict = {}
         self.results: dict = {}
         self.dropped: list = []
+        self.started: dict = {}  # job id -> (time handed to the pool, job)
+        self.retried: set = set()
+        self.lost: list = []
         self.closed = False
         self.error: str | None = None
 
@@ -174,6 +178,18 @@ class C05Feeder(threading.Thread):
                 with self.lock:
                     for jid in [j for j, a in self.inflight.items() if a.ready()]:
                         self.results[jid] = self.inflight.pop(jid).get()
+                        self.started.pop(jid, None)
+                    # a pool worker that dies (killed from outside) takes its batch with it: the pool replaces the
+                    # worker but the result never arrives - hand the batch out once more, then give up on it
+                    for jid, (t0, job) in list(self.started.items()):
+                        if time.time() - t0 > JOB_TIMEOUT_S and jid in self.inflight:
+                            self.inflight.pop(jid)
+                            self.started.pop(jid)
+                            if jid in self.retried:
+                                self.lost.append(jid)
+                            else:
+                                self.retried.add(jid)
+                                self.todo.insert(0, dict(job, prio=True))
                     over = time.time() > self.budget_end
                     while self.todo and len(self.inflight) < self.cap:
                         if over and not self.todo[0].get("prio"):
@@ -182,6 +198,7 @@ class C05Feeder(threading.Thread):
                             continue
                         job = self.todo.pop(0)
                         self.inflight[job["id"]] = self.pool.apply_async(c05_job, (job,))
+                        self.started[job["id"]] = (time.time(), job)
                     if self.closed and not self.todo and not self.inflight:
                         return
                 time.sleep(0.05)
@@ -347,6 +364,10 @@ def _run(chk: Check, tier: str, P: dict, rnd, work, pool, t_start):
     feeder.finish(timeout=max(1800.0, budget_end - time.time() + 1800))
     results = feeder.results
     ctrl["out"] = results.pop(ctrl["id"], None)
+    if feeder.retried:
+        chk.cov["replay_batches_retried_after_worker_loss"] = len(feeder.retried)
+    if feeder.lost:
+        raise MachineryError(f"replay batches {feeder.lost} were lost twice (pool workers killed?)")
     if feeder.dropped:
         chk.cov["replay_batches_dropped_at_time_budget"] = len(feeder.dropped)
     jobs = [j for j in jobs if j["id"] in results]
